@@ -156,13 +156,14 @@ def generate(rng, tier="quick"):
             sched.append(-1 if rng.random() < 0.05 else cur)
         schedule = {"mode": "coop", "order": sched}
     else:
-        d = rng.choice([0, 1, 2, 3, 4, 6, 8])
+        d = rng.choice([0, 1, 1, 2, 2, 3, 4, 6, 8, 12])
+        quantum = rng.choice([1, 2, 3, 5, 8, 13, 21, 50]) if rng.random() < 0.4 else 0
         pts = []
         for _ in range(d):
             to = "gc" if rng.random() < 0.12 else rng.randrange(n)
             pts.append([round(rng.random(), 6), to])
         pts.sort(key=lambda p: p[0])
-        schedule = {"mode": "preempt", "fractions": pts, "first": rng.randrange(n)}
+        schedule = {"mode": "preempt", "fractions": pts, "first": rng.randrange(n), "quantum": quantum}
     return {"property": PROPERTY, "worlds": worlds, "actors": actors, "schedule": schedule,
             "requests": rng.random() < 0.3}
 
@@ -266,7 +267,7 @@ def build_actors(scn, router):
 class Preempt(object):
     """Baton-passing scheduler over real threads; pre-emption at traced line events."""
 
-    def __init__(self, n, points, pkg, first=0, collect_sites=True):
+    def __init__(self, n, points, pkg, first=0, quantum=0):
         import threading
         self.n = n
         self.sems = [threading.Semaphore(0) for _ in range(n)]
@@ -282,6 +283,8 @@ class Preempt(object):
         self.on_switch = None
         self.on_gc = None
         self.threading = threading
+        self.quantum = quantum      # >0: round-robin hand-over every `quantum` traced lines (time slicing)
+        self.switches = 0
 
     # tracing -------------------------------------------------------------
     def tracer(self, frame, event, arg):
@@ -308,6 +311,24 @@ class Preempt(object):
                     if self.on_switch:
                         self.on_switch(me, to)
                     self.trace.append([self.step, me, to, site])
+                    self.switches += 1
+                    self.sems[to].release()
+                    self.sems[me].acquire()
+            elif self.quantum and self.step % self.quantum == 0:
+                me = self.idx[self.threading.get_ident()]
+                to = None
+                for j in range(1, self.n):
+                    c = (me + j) % self.n
+                    if not self.done[c]:
+                        to = c
+                        break
+                if to is not None:
+                    if self.on_switch:
+                        self.on_switch(me, to)
+                    self.switches += 1
+                    if len(self.trace) < 64:
+                        self.trace.append([self.step, me, to, "%s:%d" % (frame.f_code.co_filename[len(self.pkg):],
+                                                                          frame.f_lineno)])
                     self.sems[to].release()
                     self.sems[me].acquire()
         return self.local
@@ -424,7 +445,7 @@ def exec_inter(scn):
         steps = len(trace)
     else:
         pts = sched.get("resolved") or []
-        p = Preempt(len(steppers), pts, pkg_prefix(), first=sched.get("first", 0))
+        p = Preempt(len(steppers), pts, pkg_prefix(), first=sched.get("first", 0), quantum=sched.get("quantum", 0))
 
         def on_switch(me, to):
             probe("preempt_switches")
@@ -445,7 +466,7 @@ def exec_inter(scn):
         p.on_gc = on_gc
         p.run([s.run_all for s in steppers])
         trace = p.trace
-        sched_digest = digest([[t[1], t[2], t[3]] for t in trace])
+        sched_digest = digest([[t[1], t[2], t[3]] for t in trace] + [sched.get("quantum", 0), p.switches])
         steps = p.step
         stats["traced_lines"] = p.step
     for a in actors:
@@ -517,6 +538,15 @@ def shrink(scn):
     sched = scn["schedule"]
     # schedule first: fewer pre-emptions / fewer explicit decisions
     if sched["mode"] == "preempt":
+        if sched.get("quantum"):
+            c = copy.deepcopy(scn)
+            c["schedule"]["quantum"] = 0
+            yield c
+            for q in (50, 21, 8):
+                if q > sched["quantum"]:
+                    c = copy.deepcopy(scn)
+                    c["schedule"]["quantum"] = q
+                    yield c
         pts = sched.get("resolved") or []
         for i in range(len(pts) - 1, -1, -1):
             c = copy.deepcopy(scn)
